@@ -306,7 +306,7 @@ def flip_order(t, v):
     if k == 'tuple':
         return ['tup', [flip_order(et, x) for et, x in zip(t[1], v[1])]]
     if k == 'ndarray':
-        return ['nd', v[1], v[2], 'F' if v[3] == 'C' else 'C']
+        return ['nd', v[1], v[2], 'F' if v[3] == 'C' else 'C'] + v[4:]
     return v
 
 
@@ -513,6 +513,8 @@ class C33(Prop):
         for nd in self._nds(t, v):
             tags.append('nd:rank=%d' % len(nd[1]))
             tags.append('nd:order=' + nd[3] if len(nd[1]) >= 2 else 'nd:order=n/a')
+            if len(nd) > 4:
+                tags.append('nd:foreign-dtype')
             if not nd[2]:
                 tags.append('nd:empty')
         compound = bool(ks - {'i32', 'i64', 'f32', 'f64', 'bool', 'str', 'call', 'locus'})
